@@ -322,3 +322,24 @@ def correspond(ctx):
         if ok is not True:
             ctx.corr_fail.append({'function': m[0], 'input': repr(m[1:]),
                                   'result': 'model and implementation differ' if ok is False else 'model evaluation failed'})
+    # hole merging: the hand model HoleMerge.merge against Polygon2D._merge_boundary_and_hole for every bridge (i, j) tried
+    hcases, hmeta = [], []
+    for _ in range(ctx.n(40, 300)):
+        b = G.star_polygon(rng, n=rng.randint(3, 9), R=10.0, center=(0.0, 0.0))
+        hs = G.holes_in(rng, b, 1)
+        if not hs:
+            continue
+        h = hs[0]
+        i, j = rng.randrange(len(b)), rng.randrange(len(h))
+        got = Polygon2D._merge_boundary_and_hole([P2(p) for p in b], [P2(p) for p in h], {0.0: (i, j)})
+        hcases.append('v2l_eqb (merge %s %s %d %d (mkV2 0 0)) %s' % (
+            core.coq_list([v2(p) for p in b]), core.coq_list([v2(p) for p in h]), i, j, core.coq_list([v2((p.x, p.y)) for p in got])))
+        hmeta.append(('Polygon2D._merge_boundary_and_hole', b, h, i, j))
+    pre = ('Definition v2l_eqb (a b : list V2) : bool := Nat.eqb (length a) (length b) && '
+           'forallb (fun p => Qeq_bool (v2x (fst p)) (v2x (snd p)) && Qeq_bool (v2y (fst p)) (v2y (snd p))) (combine a b).\n')
+    res = core.run_cases('C01_corr_hm', ['Base', 'QGeom', 'HoleMerge'], pre, hcases)
+    ctx.corr_cases += len(hcases)
+    for ok, m in zip(res, hmeta):
+        if ok is not True:
+            ctx.corr_fail.append({'function': m[0], 'input': repr(m[1:]),
+                                  'result': 'model and implementation differ' if ok is False else 'model evaluation failed'})
